@@ -27,7 +27,8 @@ LEVEL = "proof"
 MODULE = "Sqfs.Props.C11"
 REQUIRED = ["Sqfs.C11.insertSorted_perm", "Sqfs.C11.insertSorted_sorted", "Sqfs.C11.scan_perm_invariant",
             "Sqfs.C11.scan_perm_invariant_glob", "Sqfs.C11.scan_perm_invariant_partial",
-            "Sqfs.C11.scan_perm_invariant_glob_partial", "Sqfs.C11.repair_conservative", "Sqfs.C11.numbering_deterministic"]
+            "Sqfs.C11.scan_perm_invariant_glob_partial", "Sqfs.C11.repair_conservative", "Sqfs.C11.numbering_deterministic",
+            "Sqfs.C11.scan_tree_sorted", "Sqfs.C11.glob_tree_sorted"]
 WITNESS_MODULE = "Sqfs.Witness.C11"
 WITNESS_THEOREMS = ["Sqfs.Witness.C11.scan_order_dependent", "Sqfs.Witness.C11.nohardlinks_agree", "Sqfs.Witness.C11.repaired_agree"]
 D16_KEY = "D16:hardlink-primary"
